@@ -130,8 +130,18 @@ func (w *World) handleRuntime(t *core.Task, r *core.Req) core.Resp {
 	}
 	w.S.Stat("runtime.inspect")
 	containerd := r.Op == "cri.status"
+	rtName := "docker"
+	if containerd {
+		rtName = "containerd"
+	}
+	failedFor := func() {
+		if st != nil {
+			w.S.Stat("probe.inspect-failed." + st.which + "." + rtName)
+		}
+	}
 	if w.faultsOn && w.rtDownLeft > 0 {
 		w.rtDownLeft--
+		failedFor()
 		w.S.Stat("fault.runtime.down.inspect")
 		if containerd {
 			return core.Resp{Code: int(codes.Unavailable)}
@@ -139,6 +149,7 @@ func (w *World) handleRuntime(t *core.Task, r *core.Req) core.Resp {
 		return core.Resp{Code: 503}
 	}
 	if w.faultsOn && w.rtRate > 0 && w.C.Prob(w.rtRate, 1000) {
+		failedFor()
 		w.S.Stat("fault.runtime.err")
 		w.S.Sig("F:rt.err")
 		w.unscripted++
@@ -454,6 +465,9 @@ func (w *World) liveUser(m Mapping, not *Container) bool {
 // finalPhase drives the quiescence phase: faults are off and nothing is in flight when it is called.
 func (w *World) finalPhase() bool {
 	w.phase = 3
+	if w.rtDownLeft > 0 {
+		w.S.Stat("probe.runtime-outage-ends-before-final-rounds")
+	}
 	w.rtDownLeft = 0
 	switch w.prop {
 	case "C17":
